@@ -1,4 +1,5 @@
 import RdpModel.Wire.Tpkt
+import RdpModel.Base.Bits
 import RdpModel.Spec.Deframe
 namespace Rdp
 open Spec
@@ -52,9 +53,6 @@ def payloadOf : Frame → Payload
   | .fastShort a p => .fast (secFlags a) p
   | .fastLong a p => .fast (secFlags a) p
 
-theorem beNat_pair (hi lo : UInt8) : beNat [hi, lo] = hi.toNat * 256 + lo.toNat := by
-  simp [beNat, leNat]; omega
-
 theorem shift_and (a : UInt8) : (a.toNat >>> 6) &&& 3 = secFlags a := by
   have h := a.toNat_lt
   unfold secFlags
@@ -68,9 +66,6 @@ end Rdp
 
 namespace Rdp
 open Spec
-
-theorem u8_ofNat_toNat (n : Nat) (h : n < 256) : (UInt8.ofNat n).toNat = n := by
-  simp [UInt8.toNat_ofNat']; omega
 
 theorem Tpkt.read_slow (r : UInt8) (p rest : Bytes) (s : List Nat) (h : p.length + 4 ≤ 65535) :
     ∃ s', Tpkt.read ⟨(Frame.slow r p).encode ++ rest, s⟩ = .ok (.raw p, ⟨rest, s'⟩) := by
@@ -99,16 +94,10 @@ theorem Tpkt.read_slow (r : UInt8) (p rest : Bytes) (s : List Nat) (h : p.length
   rw [this, h3]
   rfl
 
-theorem and80_iff : ∀ n, n < 256 → ((n &&& 0x80 ≠ 0) ↔ 128 ≤ n) := by decide +kernel
-theorem and7f_mod : ∀ n, n < 256 → (n &&& 0x7f = n % 128) := by decide +kernel
-
 theorem long_len (bn ln : Nat) (hb : 128 ≤ bn) (hb2 : bn < 256) (h : (bn - 128) * 256 + ln < 3) :
     bn % 128 * 256 + ln < 3 := by
   have e : bn % 128 = bn - 128 := by omega
   rw [e]; exact h
-
-theorem shl8_or (a b : Nat) (hb : b < 256) : (a <<< 8) ||| b = a * 256 + b := by
-  rw [← Nat.shiftLeft_add_eq_or_of_lt (by simpa using hb), Nat.shiftLeft_eq]
 
 theorem Tpkt.read_fastShort (a : UInt8) (p rest : Bytes) (s : List Nat)
     (ha : a ≠ 3) (h : p.length + 2 ≤ 0x7f) :
